@@ -114,9 +114,35 @@ func (c *l3Collector) add(group, desc string, sp *Spend, sets []flagSet) {
 	c.jobs = append(c.jobs, l3job{group, desc, sp, sets})
 }
 
+// canonical examples: run first and sequentially so that the replay recorded for each
+// labelled deviation is the same, most telling case on every run.
+var canonicalCases = []struct{ group, desc, fs string }{
+	{"L3/multisig-fad-empty/bare", "0 DROP 3 kA kB kC 3 CHECKMULTISIG NOT sigs=[empty non-DER sigC] sigC signed over script-with-OP_0-removed", "taproot"},
+	{"L3/ecdsa/bare", "CHECKSIG key=compressed sig=longform-seqlen outs=2", "none"},
+	{"L3/multisig/bare", "1-of-1 CHECKMULTISIG NOT keys=key0=hybrid sigs=[empty] dummy=empty", "standard"},
+	{"L3/ecdsa/bare", "CHECKSIG NOT key=02+x-not-on-curve sig=valid outs=2", "standard"},
+	{"L3/tapscript-checksig", "CHECKSIG NOT key=33-byte-compressed(unknown type) sig=empty annex=0", "standard"},
+	{"L3/multisig/bare", "2-of-2 CHECKMULTISIG NOT keys=key0=empty sigs=[empty empty] dummy=empty", "standard"},
+	{"L3/multisig/bare", "1-of-1 CHECKMULTISIG NOT keys=key0=empty sigs=[empty] dummy=empty", "standard"},
+}
+
 func (c *l3Collector) run(r *ev.Run) map[string]int64 {
 	counts := map[string]int64{}
 	var mu sync.Mutex
+	for _, cc := range canonicalCases {
+		for _, j := range c.jobs {
+			if j.group != cc.group || j.desc != cc.desc {
+				continue
+			}
+			for _, fs := range j.sets {
+				if fs.name == cc.fs {
+					s := *j.sp
+					s.Flags = fs.f
+					compare(r, j.group+"/"+fs.name, j.desc, &s, fs.policy)
+				}
+			}
+		}
+	}
 	ev.Par(len(c.jobs), workers(), func(i int) {
 		j := c.jobs[i]
 		key := append([]byte(j.group+"|"), j.sp.PrevOuts[j.sp.Idx].PkScript...)
